@@ -157,10 +157,14 @@ static inline int lib_backend(int k, const void *h) {
     }
     if (is_par(k)) {
         if (!v->vtable) return 0;
-        void *f = *(void *const *)v->vtable;
-        if (k == P128) { if (f == (void *)_skinny128_parallel_encrypt_vec256) return 2; if (f == (void *)_skinny128_parallel_encrypt_vec128) return 1; return -1; }
-        if (k == P64) return f == (void *)_skinny64_parallel_encrypt_vec128 ? 1 : -1;
-        return f == (void *)_mantis_parallel_crypt_vec128 ? 1 : -1;
+        // the private vtable's layout is not ours to know: look for a known entry point in its first few words
+        for (int i = 0; i < 3; ++i) {
+            void *f = ((void *const *)v->vtable)[i];
+            if (k == P128) { if (f == (void *)_skinny128_parallel_encrypt_vec256) return 2; if (f == (void *)_skinny128_parallel_encrypt_vec128) return 1; }
+            if (k == P64 && f == (void *)_skinny64_parallel_encrypt_vec128) return 1;
+            if (k == PM && f == (void *)_mantis_parallel_crypt_vec128) return 1;
+        }
+        return -1;
     }
     return -1;
 }
